@@ -270,7 +270,7 @@ View == st
 
 ASSUME PrintT("META " \o ToJson([bkeys |-> BKeys, accts |-> Accts, denoms |-> Denoms, funded |-> {"u1", "u2"}, amt0 |-> Amt0,
                                    chans |-> Chans, devs |-> Devs, maxB |-> MaxB, feeDenom |-> "d1", trees |-> Trees, cap |-> 3,
-                                   l2top |-> IF Fam = "oracle" THEN 2 ELSE 0]))   \* oracle family: the L2 block number 2 stands for the largest storable number (order is all the model uses)
+                                   l2top |-> IF Fam = "oracle" THEN 2 ELSE 0]))   \* oracle family: L2 block numbers 1 and 2 stand for 0 and MaxUint64 (order is all the model uses)
 
 (* E2: print every generated transition (ACTION_CONSTRAINT; always TRUE).   *)
 Emit ==
